@@ -200,8 +200,15 @@ def _pair(ctx):
                         out.add(key)
         return out
     hdr, src = b.methods['_create_headerfile'], b.methods['_create_sourcefile']
-    decls = rendered(hdr, ('as_decl', 'accessors_decl', 'public_decl', 'private_decl'))
-    defs = rendered(src, ('as_def', 'accessors_def', 'public_def', 'private_def'))
+    from .shared import shell_frame_anchors, frame_entities
+    fa = shell_frame_anchors(ctx)
+    if fa is not None:
+        # read off the evaluated file templates (E4): whose declaration the header renders / whose body the source renders
+        decls = frame_entities(fa['header'], 'initialization')
+        defs = frame_entities(fa['source'], 'contents')
+    else:
+        decls = rendered(hdr, ('as_decl', 'accessors_decl', 'public_decl', 'private_decl'))
+        defs = rendered(src, ('as_def', 'accessors_def', 'public_def', 'private_def'))
     ok = decls == defs and len(decls) >= 6
     run.add('C06.pair', hdr.module.name, 'Builder', f'declared {sorted(decls)}', ok,
             'every function declared in the header is defined in the source' if ok else
